@@ -100,6 +100,15 @@ def run(ctx, args):
         items.append((f"gen{i}", prog, [g.inputs(prog) for _ in range(2)]))
     fam = optfamily.programs(2)
     items += [(f"fam{k}", prog, [({"a": A.enc(a, A.INT)}, {"g": A.enc(2, A.INT)}) for a in (1, 4)]) for k, (name, prog) in enumerate(fam[::3])]
+    # functions whose first statement is a loop (the loop header is the entry block), entered and not entered
+    V, L, B = A.var, A.lit_i, A.bin_
+    inc_a = A.estmt(A.asg(V("a"), B("+", V("a"), L(2))))
+    first = [("while", [A.while_(B("<", V("a"), L(5)), A.block([inc_a])), A.ret(V("a"))]),
+             ("do", [A.do_(A.block([inc_a]), B("<", V("a"), L(5))), A.ret(V("a"))]),
+             ("for", [A.for_(None, B("<", V("a"), L(5)), A.asg(V("a"), B("+", V("a"), L(1))), A.block([A.estmt(A.asg(V("g"), B("+", V("g"), V("a"))))])), A.ret(B("+", V("a"), V("g")))]),
+             ("while-nested", [A.while_(B("<", V("a"), L(5)), A.block([A.while_(B("<", V("g"), L(4)), A.block([A.estmt(A.asg(V("g"), B("+", V("g"), L(1))))])), inc_a])), A.ret(B("+", V("a"), V("g")))])]
+    items += [(f"loopfirst-{nm}", A.prog([("g", A.INT)], [A.func("f", [("a", A.INT)], A.INT, A.block(body), True)]),
+               [({"a": A.enc(a, A.INT)}, {"g": A.enc(2, A.INT)}) for a in (1, 9)]) for nm, body in first]
     scratch = str(ctx.scratch / "c17")
     jobs = [(items[i:i + 12], str(ctx.repo), str(common.VERIF / "harness"), scratch) for i in range(0, len(items), 12)]
     with mp.Pool(16) as pool:
@@ -154,6 +163,10 @@ def run(ctx, args):
             d = next((i for i, (x, y) in enumerate(zip(a, b)) if x != y), min(len(a), len(b)))
             ctx.violation("listing-differs", f"line {d + 1} of the listing: compiled `{a[d] if d < len(a) else ''}`, reloaded `{b[d] if d < len(b) else ''}`", base)
             continue
+        if ld.get("listing_same_name") != r["listing"]:
+            ctx.violation("stale-module-under-reused-name", "the module file copied to a name that earlier modules of the same process were stored under loads as something else than what the file holds "
+                          f"(first differing line: {next((y for x, y in zip(r['listing'].splitlines(), (ld.get('listing_same_name') or '').splitlines()) if x != y), '?')})", base)
+            continue
         if observable(ld["proj"]) != observable(json.loads(json.dumps(r["proj"]))):
             ctx.violation("object-graph-differs", "the reloaded module lists identically but its instructions / operands / constants / types differ from the compiled module", base)
             continue
@@ -183,7 +196,7 @@ def run(ctx, args):
     return common.finish(
         ctx, level="model_checking", evaluations=stored, distinct_nontrivial=nontrivial,
         rule=f"{n} seeded programs (int and uint mixed, structs, arrays, calls, vectors) + {len(fam[::3])} optimiser-family programs x 2 optimisation levels: compiled in process 1 "
-             "(reference), stored by `nslc.py -o` in process 2, loaded by FilesystemModuleLoader in process 3; listing, projection and VM results on 2 inputs compared; "
+             "(reference), stored by `nslc.py -o` in process 2, loaded by FilesystemModuleLoader in process 3 (from its own path and from one path that all modules of that process are copied to in turn); four functions whose first statement is a loop; listing, projection and VM results on 2 inputs compared; "
              "reloaded functions checked by IRWellFormed (TLC, all paths); results judged against NslSem (TLC). distinct_nontrivial = identical reloads with more than 25 listing lines.",
         samples=samples, traces_validated=counts.get("reload-identical", 0),
         assumptions=["identical behaviour = identical repr of the returned value and of the globals, identical failure class",
